@@ -206,7 +206,7 @@ func skippableInIteration(b *ssa.BasicBlock) bool {
 	var hdr *ssa.BasicBlock
 	for d := b; d != nil && hdr == nil; d = d.Idom() {
 		for _, pred := range d.Preds {
-			if d.Dominates(pred) && (pred == b || blockReachesPlain(b, pred)) {
+			if d.Dominates(pred) && (pred == b || blockReachesPlain(b, pred)) && naturalLoop(d)[b] {
 				hdr = d
 			}
 		}
